@@ -202,7 +202,10 @@ def run_histories(r, rng, T, make_session, direct, req_cases, on_request=None):
                 try:
                     if kind == "cols":
                         op = ("cols", tuple(rng.sample(cur, rng.randint(1, len(cur)))))
-                        new = obj[list(op[1])]
+                        lst = list(op[1])
+                        new = obj[lst]
+                        lst.reverse()          # what the caller does with its own list afterwards is the caller's business
+                        lst.append("zz")
                     elif kind == "child":
                         op = ("child", rng.choice(cur))
                         new = obj[op[1]]
